@@ -19,6 +19,10 @@ def main():
     props = ALL
     if "--props" in args:
         i = args.index("--props"); props = args[i + 1].split(","); del args[i:i + 2]
+    # --merge: keep the records of checks that are not re-run now (each record carries the /verif commit it was made with)
+    merge = "--merge" in args
+    if merge: args.remove("--merge")
+    harness = sh(["git", "-C", VERIF, "rev-parse", "--short", "HEAD"]).stdout.strip()
     if sh(["git", "-C", "/repo", "status", "--porcelain"]).stdout.strip():
         sys.exit("/repo is not clean")
     for seed in args:
@@ -51,13 +55,19 @@ def main():
                         d = rec.get("detail", {})
                         first = {"key": rec.get("key"), "input": (d.get("text") or d.get("case") or d.get("edit") or json.dumps(d))[:400] if isinstance(d, dict) else str(d)[:400]}
                     except Exception: pass
-                res[p] = {"exit": r.returncode, "violation_lines": len(viol), "violation_keys": {k: v for k, v in keys.items() if not k.startswith("stage-refusal/")},
+                res[p] = {"harness_commit": harness, "exit": r.returncode, "violation_lines": len(viol), "violation_keys": {k: v for k, v in keys.items() if not k.startswith("stage-refusal/")},
                           "first": first, "seconds": round(time.time() - t, 1), "summary": (r.stdout.strip().splitlines() or [""])[-1][:200]}
                 if r.returncode == 2:
                     res[p]["machinery_error"] = (r.stdout + r.stderr)[-400:]
         finally:
             sh(["git", "-C", "/repo", "checkout", "--", "."])
-        caught = [p for p in props if res.get(p, {}).get("exit") == 1]
+        ej = os.path.join(seed, "eval.json")
+        if merge and os.path.exists(ej):
+            try:
+                old = json.load(open(ej)).get("checks", {})
+                for k, v in old.items(): res.setdefault(k, v)
+            except Exception: pass
+        caught = [p for p in ALL if res.get(p, {}).get("exit") == 1]
         json.dump({"seed": name, "repo_commit": sh(["git", "-C", "/repo", "rev-parse", "--short", "HEAD"]).stdout.strip(), "checks": res, "caught_by": caught},
                   open(os.path.join(seed, "eval.json"), "w"), indent=1)
         print(name, "caught by", caught, "| machinery errors:", [p for p in props if res.get(p, {}).get("exit") == 2], flush=True)
